@@ -667,12 +667,13 @@ Definition d_pref (x : xval) : option pref :=
 
 Definition d_meth (x : xval) : option meth :=
   match x with XN 0 => Some MGet | XN 1 => Some MHead | XN 2 => Some MOther | _ => None end.
-(** request group: (L (N kind) (L [accept-encoding]) (N method) (N n)): n requests with this method and header;
+(** request group: (L (N kind) (L [accept-encoding]) (N method) (N n) (L more ...)): n requests with this method and header
+    ("more": further Accept-Encoding field lines after the first; [headers().get] reads the first one only);
     kind 0: one after the other, 1: concurrently, futures joined on one thread, 2: concurrently, tasks spawned
     on a multi-thread runtime (the model does not distinguish 1 and 2) *)
 Definition d_req (x : xval) : option (list (meth * option bytes * nat)) :=
   match x with
-  | XL [XN k; ae; xm; XN n] =>
+  | XL [XN k; ae; xm; XN n; XL _] =>
       match d_option d_B ae, d_meth xm with
       | Some a, Some m =>
           if k =? 0 then Some (repeat (m, a, 1%nat) (N.to_nat n))
